@@ -11,6 +11,7 @@ import Proofs.Canonical
 import Proofs.WireCanon
 import Proofs.NoPanic
 import Proofs.ProgSlice
+import Proofs.Renorm
 namespace Scale.C03
 open Scale
 
@@ -37,6 +38,78 @@ theorem accepts_exactly_encodings (ty : Ty) (hw : widthsOk ty = true) (hl : layo
   · rintro ⟨hwf, rfl⟩
     have := decode_encode ty v hwf (canon_true ty hc v) hl rest
     rwa [norm_id ty hc v] at this
+
+/-- **Exact language, general form.** For every type without bit sequences — including maps, sets
+    and heaps with their documented non-canonical acceptances — decoding succeeds with `v` and
+    remainder `rest` **iff** the input is the SCALE encoding of some well-formed value `raw` *as
+    written* followed by `rest`, and `v` is `raw` order-normalised at every nesting level
+    (`renorm`: heaps sorted, maps/sets rebuilt by `from_iter` — any order and duplicate keys are
+    accepted, the later entry wins; everything else unchanged). -/
+theorem accepts_exactly_encodings_up_to_order (ty : Ty) (hw : widthsOk ty = true) (hl : layoutOk ty = true)
+    (hb : noBits ty = true) (bs rest : Bytes) (v : Val) :
+    decode ty bs = (.ok v, rest) ↔
+      ∃ raw, wf ty raw = true ∧ bs = Spec.encode ty raw ++ rest ∧ v = renorm ty raw :=
+  exact_language ty hw hl hb bs rest v
+
+/-- The decoder of a type with ordered collections is the decoder of the same type with plain
+    sequences in their place (`listify`), followed by order-normalisation — for every input. -/
+theorem ordered_collections_read_as_sequences (ty : Ty) (bs : Bytes) :
+    decode ty bs = ((decode (listify ty) bs).1.map (renorm ty), (decode (listify ty) bs).2) :=
+  sim_decodeP ty bs
+
+/-- **Bit sequences**: the accepted inputs are a compact bit count `n ≤ 2^29 - 1`, followed by exactly
+    `ceil(n / w)` storage words of any content; the value is the first `n` bits of the unpacked
+    words — so the padding bits of the last word are not inspected (the one documented acceptance
+    of input that is not the encoding of a value). -/
+theorem bit_sequence_language (store : Prim) (msb : Bool) (bs rest : Bytes) (v : Val) :
+    decode (.bitseq store msb) bs = (.ok v, rest) ↔
+      ∃ (n : Nat) (words : Bytes), n ≤ maxBits ∧
+        words.length = Impl.elts (8 * store.size) n * store.size ∧
+        bs = Spec.compact n ++ words ++ rest ∧
+        v = .bits ((((chunksOf store.size (Impl.elts (8 * store.size) n) words).map
+              fun e => elemToBits (8 * store.size) msb (fromLe e)).flatten).take n) := by
+  have hs1 : 1 ≤ store.size := by cases store <;> simp [Prim.size]
+  have hs2 : store.size ≤ maxPrealloc := by cases store <;> simp [Prim.size, maxPrealloc]
+  have hge : ∀ (n : Nat) (words : Bytes), n ≤ (((chunksOf store.size (Impl.elts (8 * store.size) n) words).map
+      fun e => elemToBits (8 * store.size) msb (fromLe e)).flatten).length := by
+    intro n words
+    rw [flatten_map_const_length _ _ (8 * store.size) (by intro a; simp [elemToBits]), chunksOf_length]
+    have hw : 0 < 8 * store.size := by omega
+    unfold Impl.elts
+    generalize 8 * store.size = w at *
+    have := Nat.div_add_mod (n + w - 1) w
+    have := Nat.mod_lt (n + w - 1) hw
+    rw [Nat.mul_comm]
+    omega
+  simp only [decode, Impl.decodeP]
+  constructor
+  · intro h
+    obtain ⟨n, s1, h1, h2⟩ := run_bind_ok h
+    obtain ⟨hn, rfl⟩ := len_inv h1
+    by_cases hm : n > maxBits
+    · simp [hm] at h2
+    · simp only [hm, if_false] at h2
+      obtain ⟨words, tl, rfl, hlen, h3⟩ := run_bulk_ok hs1 hs2 h2
+      simp only [hge n words, if_true] at h3
+      obtain ⟨rfl, rfl⟩ := run_pure_ok h3
+      exact ⟨n, words, by omega, hlen, by simp [List.append_assoc], rfl⟩
+  · rintro ⟨n, words, hn, hlen, rfl, rfl⟩
+    have hn32 : n ≤ u32Max := by simp [maxBits, u32Max] at hn ⊢; omega
+    rw [List.append_assoc, run_bind, run_len_enc hn32]
+    have hm : ¬ n > maxBits := by omega
+    simp only [hm, if_false]
+    rw [run_slice_bulk hs1 hs2]
+    have hc : ¬ (Impl.elts (8 * store.size) n * store.size > usizeMax ∨
+        (words ++ rest).length < Impl.elts (8 * store.size) n * store.size) := by
+      simp only [List.length_append, hlen]
+      have : Impl.elts (8 * store.size) n ≤ n + 8 * store.size - 1 := by
+        unfold Impl.elts; exact Nat.div_le_self _ _
+      have h16 : store.size ≤ 16 := by cases store <;> simp [Prim.size]
+      have := Nat.mul_le_mul this h16
+      simp [maxBits] at hn
+      simp [usizeMax]
+      omega
+    simp only [hc, if_false, List.take_left' hlen, List.drop_left' hlen, hge n words, if_true, run_pure]
 
 /-- Soundness half for every type, canonical or not: nothing is accepted that is not the decode of
     the canonical encoding of what was returned (maps/sets/heaps come back normalised). -/
@@ -155,5 +228,11 @@ example : (decode (.seq .bset 0 (.prim .u8)) [8, 2, 1]).1.isOk = true := by deci
 example : (decode (.bitseq .u8 false) [4, 0xff]).1.isOk = true := by decide
 example : wireCanon (.seq .vec 24 (.tuple [.str, .option (.prim .u32)])) = true := by decide
 example : (decode (.seq .vec 1 (.prim .u8)) [0xfe, 0xff, 0xff, 0xff, 1, 2, 3]).1.isOk = false := by decide
+
+
+/-! ### Non-vacuity of the general form: an unsorted set with a duplicate is accepted and normalised -/
+example : renorm (.seq .bset 96 (.prim .u8)) (.seq [.nat 2, .nat 1, .nat 2]) = .seq [.nat 1, .nat 2] := by rfl
+example : (decode (.seq .bset 96 (.prim .u8)) [12, 2, 1, 2]).1.isOk = true := by decide
+example : noBits (.seq .bmap 32 (.tuple [.prim .u8, .seq .heap 4 (.prim .u32)])) = true := by decide
 
 end Scale.C03
